@@ -29,6 +29,11 @@ type c05Unm struct{ seen []byte }
 
 func (u *c05Unm) UnmarshalJSON(b []byte) error { u.seen = append(u.seen[:0], b...); return nil }
 
+type c05Struct17 struct {
+	A                                                                     int `json:"a"`
+	F1, F2, F3, F4, F5, F6, F7, F8, F9, F10, F11, F12, F13, F14, F15, F16 any
+}
+
 type c05Entry struct {
 	name string
 	// accept reports whether the entry point took b as one complete JSON text.
@@ -68,6 +73,10 @@ var c05Entries = []c05Entry{
 		}
 		return gojson.Unmarshal(b, &v) == nil
 	}, false, true},
+	// more than 16 members: keys are looked up through the string decoder and a map, not the bitmaps
+	{"Unmarshal:struct17", func(b []byte) bool { var v c05Struct17; return gojson.Unmarshal(b, &v) == nil }, false, true},
+	{"Decode:struct17", func(b []byte) bool { var v c05Struct17; return c05DecodeOne(b, &v) }, true, true},
+	{"Decode(2-byte reads):struct17", func(b []byte) bool { var v c05Struct17; return c05DecodeChunked(b, &v, 2) }, true, true},
 	{"Unmarshal:[0]int", func(b []byte) bool { var v [0]int; return gojson.Unmarshal(b, &v) == nil }, false, true},
 	{"Unmarshal:[1]iface", func(b []byte) bool { var v [1]any; return gojson.Unmarshal(b, &v) == nil }, false, true},
 	{"Unmarshal:RawMessage", func(b []byte) bool { var v gojson.RawMessage; return gojson.Unmarshal(b, &v) == nil }, false, true},
@@ -194,14 +203,20 @@ func c05Explain(b []byte, e *c05Entry) string {
 			rx = append(rx, rn{r.Name, r.R})
 		}
 	}
+	// a struct destination decodes the top-level object and its member names itself: the skip
+	// scanners explain member values only
+	var top oracle.Relax
+	if strings.Contains(e.name, ":struct") {
+		top = oracle.RTopDecoded
+	}
 	for i := range rx {
-		if oracle.Recognise(b, rx[i].R) {
+		if oracle.Recognise(b, rx[i].R|top) {
 			return "relax=" + rx[i].Name
 		}
 	}
 	for i := range rx {
 		for k := i + 1; k < len(rx); k++ {
-			if oracle.Recognise(b, rx[i].R|rx[k].R) {
+			if oracle.Recognise(b, rx[i].R|rx[k].R|top) {
 				return "relax=" + rx[i].Name + " + relax=" + rx[k].Name
 			}
 		}
@@ -209,7 +224,7 @@ func c05Explain(b []byte, e *c05Entry) string {
 	for i := range rx {
 		for k := i + 1; k < len(rx); k++ {
 			for m := k + 1; m < len(rx); m++ {
-				if oracle.Recognise(b, rx[i].R|rx[k].R|rx[m].R) {
+				if oracle.Recognise(b, rx[i].R|rx[k].R|rx[m].R|top) {
 					return "relax=" + rx[i].Name + " + relax=" + rx[k].Name + " + relax=" + rx[m].Name
 				}
 			}
